@@ -13,9 +13,10 @@ for f in $DEMOS; do mv /tmp/seed/aside_$$/$f $f; done; rm -rf /tmp/seed/aside_$$
 if [ $rc -ne 0 ]; then echo "CONFIRM: existing suite FAILS with change"; grep -E "^(FAIL|---)" /tmp/seed/suite_$$.log | head; exit 1; fi
 echo "suite with change: pass"
 go test -vet=off -count=1 -run "$RUN" $PKG > /tmp/seed/demo1_$$.log 2>&1; d1=$?
-git stash -q
+git diff > /tmp/seed/own_$$.patch
+git apply -R /tmp/seed/own_$$.patch
 go test -vet=off -count=1 -run "$RUN" $PKG > /tmp/seed/demo2_$$.log 2>&1; d2=$?
-git stash pop -q
+git apply /tmp/seed/own_$$.patch
 echo "demo with change rc=$d1 (want !=0); demo without change rc=$d2 (want 0)"
 if [ $d1 -ne 0 ] && [ $d2 -eq 0 ]; then echo "CONFIRM: OK"; exit 0; fi
 tail -5 /tmp/seed/demo1_$$.log; tail -5 /tmp/seed/demo2_$$.log
